@@ -94,6 +94,27 @@ Proof.
 Qed.
 Print Assumptions C08_terms_commute_with_axis_permutations.
 
+(* ... and for the single-channel terms AS REGENERATED FROM THE SOURCE (Gen/NonlinFuns.v, harness/translate/nonlin.py, tied in Tie/NonlinTie.v)
+   with the concrete mask and pseudo-spectral product: the source text of the single-channel convection (both forms) and of the gradient norm
+   commutes with every re-labelling of the axes, in any dimension *)
+From EXV Require Import Gen.NonlinFuns Tie.NonlinTie.
+Theorem C08_code_terms_commute_with_axis_permutations : forall (F : FieldT) (D : nat) (N Kc : Z) (p : list nat) (ii s ND b : F) (zf : bool),
+  (0 < N)%Z -> (0 <= Kc)%Z -> Permutation p (seq 0 D) ->
+  forall (u : field F) (k : idx), length k = D ->
+  let M := msk F Kc in let P2 := prod2 F D N Kc in let P3 := prod3 F D N Kc in
+  nth 0 (gen_convection F M P2 P3 ii s D ND b true true [relabel F p u]) (fzero F) k
+    = nth 0 (gen_convection F M P2 P3 ii s D ND b true true [u]) (fzero F) (permi p k)
+  /\ nth 0 (gen_convection F M P2 P3 ii s D ND b true false [relabel F p u]) (fzero F) k
+    = nth 0 (gen_convection F M P2 P3 ii s D ND b true false [u]) (fzero F) (permi p k)
+  /\ gen_gradient_norm F M P2 P3 ii s D ND b zf (relabel F p u) k = gen_gradient_norm F M P2 P3 ii s D ND b zf u (permi p k).
+Proof.
+  intros F D N Kc p ii s ND b zf HN HK Hp u k Hl M P2 P3. unfold M, P2, P3. splits.
+  - rewrite !convection_sc_cons_tie. cbn [nth]. apply conv_sc_cons_relabel; assumption.
+  - rewrite !convection_sc_noncons_tie. cbn [nth]. apply conv_sc_noncons_relabel; assumption.
+  - rewrite !gradient_norm_tie. apply gradient_norm_relabel; assumption.
+Qed.
+Print Assumptions C08_code_terms_commute_with_axis_permutations.
+
 (* vector-valued (multi-channel) convection, both forms: when u' is the velocity field seen in the permuted frame - channel i of u' at the
    re-labelled wavenumber is channel p_i of u - the term of u' is the term of u in the permuted frame: channels are permuted along with the axes *)
 Theorem C08_vector_convection_commutes_with_axis_permutations : forall (F : FieldT) (D : nat) (N Kc : Z) (p : list nat) (ii s b : F),
